@@ -132,7 +132,10 @@ func (sc *vSched) exec(st vStep) error {
 		r.log(vEvent{"ev": "resp", "kind": "undecodable", "variant": v})
 		return sc.respondPoll(st, http.StatusOK, b)
 	case "Offer":
-		class, kind := argStr(st, 0), argStr(st, 1)
+		class, kind, addr := argStr(st, 0), argStr(st, 1), argStr(st, 2)
+		if addr == "" {
+			addr = "real"
+		}
 		r.mu.Lock()
 		s := r.cur
 		r.mu.Unlock()
@@ -144,13 +147,19 @@ func (sc *vSched) exec(st vStep) error {
 		r.clients[s] = cl
 		r.gateArmed = true
 		r.mu.Unlock()
-		offer := cl.offer
+		r.mu.Lock()
+		r.ownAddr[vOwnAddr(s)] = s
+		r.mu.Unlock()
+		offer, err := vMungeOffer(cl.offer, addr, s, r.rand(3))
+		if err != nil {
+			return sc.diverged(st, "harness offer: "+err.Error())
+		}
 		if kind == "bad" {
 			variants := []string{`{"type":"offer","sdp":"v=0\r\nthis is not sdp\r\n"}`, `{"type":"offer","sdp":""}`, `{"type":"answer","sdp":"v=0\r\n"}`}
 			offer = variants[r.rand(len(variants))]
 		}
 		b, _ := messages.EncodePollResponseWithRelayURL(offer, true, "unknown", vURL(class, s), "")
-		r.log(vEvent{"ev": "resp", "kind": "offer", "cls": class, "sdp": kind, "s": s})
+		r.log(vEvent{"ev": "resp", "kind": "offer", "cls": class, "sdp": kind, "addr": addr, "s": s})
 		return sc.respondPoll(st, http.StatusOK, b)
 	case "RelayRejected":
 		return sc.await(st, "rs.exit.rejected", sc.wait, evExit("rejected", "badurl"))
